@@ -129,4 +129,223 @@ theorem editFields_length {α : Type} (n : Nat) (aliases : List (String × Nat))
   | nil => rfl
   | cons e t ih => simp only [List.foldl_cons]; rw [ih]; simp
 
+/-! ### link-attribute slots (round 4) -/
+
+theorem slotGet_mem {s : String} {g : Nat} :
+    ∀ {l : List (String × Nat)}, slotGet s l = some g → (s, g) ∈ l
+  | [], h => by simp [slotGet] at h
+  | (k, g') :: t, h => by
+    by_cases hk : k = s
+    · simp only [slotGet, hk, if_true, Option.some.injEq] at h
+      subst hk; subst h; exact List.mem_cons_self
+    · simp only [slotGet, hk, if_false] at h
+      exact List.mem_cons_of_mem _ (slotGet_mem h)
+
+theorem slotGet_isSome_of_mem {s : String} {g : Nat} :
+    ∀ {l : List (String × Nat)}, (s, g) ∈ l → (slotGet s l).isSome = true
+  | [], h => by simp at h
+  | (k, g') :: t, h => by
+    by_cases hk : k = s
+    · simp [slotGet, hk]
+    · simp only [slotGet, hk, if_false]
+      rcases List.mem_cons.mp h with h | h
+      · exact absurd (Prod.mk.inj h).1.symm hk
+      · exact slotGet_isSome_of_mem h
+
+theorem slotGet_cons_isSome (s k : String) (g : Nat) (l : List (String × Nat))
+    (h : (slotGet s l).isSome = true) : (slotGet s ((k, g) :: l)).isSome = true := by
+  by_cases hk : k = s <;> simp [slotGet, hk, h]
+
+theorem slotGet_append_isSome (s : String) (a l : List (String × Nat))
+    (h : (slotGet s l).isSome = true) : (slotGet s (a ++ l)).isSome = true := by
+  induction a with
+  | nil => simpa using h
+  | cons p t ih => obtain ⟨k, g⟩ := p; exact slotGet_cons_isSome s k g _ ih
+
+theorem slotGet_append_mem (s : String) (g : Nat) (a l : List (String × Nat))
+    (h : slotGet s (a ++ l) = some g) : (s, g) ∈ a ∨ slotGet s l = some g := by
+  induction a with
+  | nil => exact Or.inr (by simpa using h)
+  | cons p t ih =>
+    obtain ⟨k, g'⟩ := p
+    by_cases hk : k = s
+    · simp only [List.cons_append, slotGet, hk, if_true, Option.some.injEq] at h
+      subst hk; subst h; exact Or.inl List.mem_cons_self
+    · simp only [List.cons_append, slotGet, hk, if_false] at h
+      rcases ih h with h1 | h1
+      · exact Or.inl (List.mem_cons_of_mem _ h1)
+      · exact Or.inr h1
+
+theorem slotGet_of_consistent {W : List (String × Nat)} (hc : slotsConsistent W = true)
+    {s : String} {g : Nat} (h : (s, g) ∈ W) : slotGet s W = some g := by
+  have h1 := slotGet_isSome_of_mem h
+  obtain ⟨g', hg'⟩ := Option.isSome_iff_exists.mp h1
+  have h2 := slotGet_mem hg'
+  have h3 := List.all_eq_true.mp (List.all_eq_true.mp hc _ h2) _ h
+  simp at h3
+  rw [hg', h3]
+
+theorem onces_eq_of_consistent {O : List (String × List (String × Nat))}
+    (hc : oncesConsistent O = true) {k : String} {b b' : List (String × Nat)}
+    (h : (k, b) ∈ O) (h' : (k, b') ∈ O) : b = b' := by
+  have h3 := List.all_eq_true.mp (List.all_eq_true.mp hc _ h) _ h'
+  simpa using h3
+
+/-- invariant of an object's attribute store with respect to the writes `W` and the cached
+stores `O` of its class table: every slot holds a content some method writes there, and a cached
+method that has run has left its slots behind -/
+def AInv (W : List (String × Nat)) (O : List (String × List (String × Nat))) (st : AState) : Prop :=
+  (∀ s g, slotGet s st.slots = some g → (s, g) ∈ W) ∧
+  (∀ k body, k ∈ st.done → (k, body) ∈ O → ∀ p ∈ body, (slotGet p.1 st.slots).isSome = true)
+
+theorem AInv_init (W : List (String × Nat)) (O : List (String × List (String × Nat))) :
+    AInv W O AState.init :=
+  ⟨by intro s g h; simp [AState.init, slotGet] at h, by intro k b h; simp [AState.init] at h⟩
+
+/-- what a list of steps observes when every slot holds its canonical content -/
+def expectObs (W : List (String × Nat)) : List AStep → List (Option Nat)
+  | [] => []
+  | .use s :: t => slotGet s W :: expectObs W t
+  | _ :: t => expectObs W t
+
+theorem execSteps_ok (W : List (String × Nat)) (O : List (String × List (String × Nat)))
+    (hW : slotsConsistent W = true) (hO : oncesConsistent O = true) :
+    ∀ (steps : List AStep) (P : List String) (st : AState), AInv W O st →
+      (∀ s ∈ P, (slotGet s st.slots).isSome = true) → covered P steps = true →
+      (∀ a ∈ steps, ∀ p ∈ stepWrites a, p ∈ W) → (∀ a ∈ steps, ∀ o ∈ stepOnces a, o ∈ O) →
+      AInv W O (execSteps st steps).1 ∧ (execSteps st steps).2 = expectObs W steps := by
+  intro steps
+  induction steps with
+  | nil => intro P st hinv _ _ _ _; exact ⟨hinv, rfl⟩
+  | cons a t ih =>
+    intro P st hinv hP hcov hw ho
+    have hwt : ∀ a ∈ t, ∀ p ∈ stepWrites a, p ∈ W := fun a ha => hw a (List.mem_cons_of_mem _ ha)
+    have hot : ∀ a ∈ t, ∀ o ∈ stepOnces a, o ∈ O := fun a ha => ho a (List.mem_cons_of_mem _ ha)
+    cases a with
+    | ensure s g =>
+      have hsg : (s, g) ∈ W := hw _ List.mem_cons_self _ (by simp [stepWrites])
+      simp only [covered] at hcov
+      simp only [execSteps, execStep, List.nil_append, expectObs]
+      by_cases hp : (slotGet s st.slots).isSome = true
+      · rw [if_pos hp]
+        exact ih (s :: P) st hinv (by
+          intro x hx; rcases List.mem_cons.mp hx with rfl | hx
+          · exact hp
+          · exact hP x hx) hcov hwt hot
+      · rw [if_neg hp]
+        refine ih (s :: P) _ ⟨?_, ?_⟩ ?_ hcov hwt hot
+        · intro x gx hx
+          by_cases hk : s = x
+          · simp only [slotGet, hk, if_true, Option.some.injEq] at hx
+            subst hk; subst hx; exact hsg
+          · simp only [slotGet, hk, if_false] at hx; exact hinv.1 x gx hx
+        · intro k body hk hb p hpb
+          exact slotGet_cons_isSome _ _ _ _ (hinv.2 k body hk hb p hpb)
+        · intro x hx; rcases List.mem_cons.mp hx with rfl | hx
+          · simp [slotGet]
+          · exact slotGet_cons_isSome _ _ _ _ (hP x hx)
+    | store s g =>
+      have hsg : (s, g) ∈ W := hw _ List.mem_cons_self _ (by simp [stepWrites])
+      simp only [covered] at hcov
+      simp only [execSteps, execStep, List.nil_append, expectObs]
+      refine ih (s :: P) _ ⟨?_, ?_⟩ ?_ hcov hwt hot
+      · intro x gx hx
+        by_cases hk : s = x
+        · simp only [slotGet, hk, if_true, Option.some.injEq] at hx
+          subst hk; subst hx; exact hsg
+        · simp only [slotGet, hk, if_false] at hx; exact hinv.1 x gx hx
+      · intro k body hk hb p hpb
+        exact slotGet_cons_isSome _ _ _ _ (hinv.2 k body hk hb p hpb)
+      · intro x hx; rcases List.mem_cons.mp hx with rfl | hx
+        · simp [slotGet]
+        · exact slotGet_cons_isSome _ _ _ _ (hP x hx)
+    | use s =>
+      simp only [covered, Bool.and_eq_true] at hcov
+      have hs : s ∈ P := by simpa using hcov.1
+      obtain ⟨g, hg⟩ := Option.isSome_iff_exists.mp (hP s hs)
+      have hcanon : slotGet s W = some g := slotGet_of_consistent hW (hinv.1 s g hg)
+      obtain ⟨i1, i2⟩ := ih P st hinv hP hcov.2 hwt hot
+      simp only [execSteps, execStep, expectObs]
+      exact ⟨i1, by rw [i2, hg, hcanon]; rfl⟩
+    | once k body =>
+      have hkb : (k, body) ∈ O := ho _ List.mem_cons_self _ (by simp [stepOnces])
+      have hbw : ∀ p ∈ body, p ∈ W := fun p hp => hw _ List.mem_cons_self p (by simpa [stepWrites] using hp)
+      simp only [covered] at hcov
+      simp only [execSteps, execStep, expectObs]
+      by_cases hd : st.done.contains k = true
+      · rw [if_pos hd]
+        simp only [List.nil_append]
+        refine ih (body.map (·.1) ++ P) st hinv ?_ hcov hwt hot
+        intro x hx
+        rcases List.mem_append.mp hx with hx | hx
+        · obtain ⟨p, hp, rfl⟩ := List.mem_map.mp hx
+          exact hinv.2 k body (by simpa using hd) hkb p hp
+        · exact hP x hx
+      · rw [if_neg hd]
+        simp only [List.nil_append]
+        refine ih (body.map (·.1) ++ P) _ ⟨?_, ?_⟩ ?_ hcov hwt hot
+        · intro x gx hx
+          rcases slotGet_append_mem x gx _ _ hx with h1 | h1
+          · exact hbw _ (by simpa using h1)
+          · exact hinv.1 x gx h1
+        · intro k' body' hk' hb' p hpb
+          rcases List.mem_cons.mp hk' with rfl | hk'
+          · have : body' = body := onces_eq_of_consistent hO hb' hkb
+            subst this
+            have : (p.1, p.2) ∈ body'.reverse ++ st.slots :=
+              List.mem_append_left _ (by simpa using hpb)
+            exact slotGet_isSome_of_mem this
+          · exact slotGet_append_isSome _ _ _ (hinv.2 k' body' hk' hb' p hpb)
+        · intro x hx
+          rcases List.mem_append.mp hx with hx | hx
+          · obtain ⟨p, hp, rfl⟩ := List.mem_map.mp hx
+            have : (p.1, p.2) ∈ body.reverse ++ st.slots :=
+              List.mem_append_left _ (by simpa using hp)
+            exact slotGet_isSome_of_mem this
+          · exact slotGet_append_isSome _ _ _ (hP x hx)
+    | other w => simp [covered] at hcov
+
+theorem findSteps_mem {q : String} {steps : List AStep} :
+    ∀ {tbl : List (String × List AStep)}, findSteps q tbl = some steps → (q, steps) ∈ tbl
+  | [], h => by simp [findSteps] at h
+  | (n, st) :: t, h => by
+    by_cases hk : n = q
+    · simp only [findSteps, hk, if_true, Option.some.injEq] at h
+      subst hk; subst h; exact List.mem_cons_self
+    · simp only [findSteps, hk, if_false] at h
+      exact List.mem_cons_of_mem _ (findSteps_mem h)
+
+theorem mem_writesOf {tbl : List (String × List AStep)} {m : String × List AStep} (hm : m ∈ tbl)
+    {a : AStep} (ha : a ∈ m.2) {p : String × Nat} (hp : p ∈ stepWrites a) : p ∈ writesOf tbl :=
+  List.mem_flatMap.mpr ⟨m, hm, List.mem_flatMap.mpr ⟨a, ha, hp⟩⟩
+
+theorem mem_oncesOf {tbl : List (String × List AStep)} {m : String × List AStep} (hm : m ∈ tbl)
+    {a : AStep} (ha : a ∈ m.2) {o : String × List (String × Nat)} (ho : o ∈ stepOnces a) :
+    o ∈ oncesOf tbl :=
+  List.mem_flatMap.mpr ⟨m, hm, List.mem_flatMap.mpr ⟨a, ha, ho⟩⟩
+
+theorem execSteps_reads (st : AState) (steps : List AStep) (h : steps.all isRead = true) :
+    (execSteps st steps).1 = st := by
+  induction steps with
+  | nil => rfl
+  | cons a t ih =>
+    simp only [List.all_cons, Bool.and_eq_true] at h
+    cases a with
+    | use s => simp only [execSteps, execStep]; exact ih h.2
+    | other w => simp only [execSteps, execStep]; exact ih h.2
+    | ensure s g => simp [isRead] at h
+    | store s g => simp [isRead] at h
+    | once k b => simp [isRead] at h
+
+theorem findSteps_linkless (q : String) (tbl : List (String × List AStep)) :
+    findSteps q (linkless tbl) = (findSteps q tbl).map (fun s => s.filter isRead) := by
+  induction tbl with
+  | nil => rfl
+  | cons m t ih =>
+    obtain ⟨n, st⟩ := m
+    by_cases hk : n = q
+    · simp [linkless, findSteps, hk]
+    · simp only [linkless, List.map_cons, findSteps, hk, if_false] at ih ⊢
+      exact ih
+
 end Pyunicorn.Pure
